@@ -82,7 +82,7 @@ int main(int argc, char** argv)
             printf("OK\n");
             return 0;
         }
-        RunResult r = runProgram(P, checksFor(P.property));
+        RunResult r = runCase(P, opt.count("tier") && opt["tier"] == "thorough" ? 1 : 0);
         for (auto& kv : r.labels.c) printf("LABEL %s %ld\n", kv.first.c_str(), kv.second);
         if (!r.ok) {
             printf("FAIL %s :: step %d :: %s\n", r.fail.tag.c_str(), r.failStep, r.fail.msg.c_str());
@@ -125,7 +125,7 @@ int main(int argc, char** argv)
             Program P = generate(prop, R, tier);
             const std::string txt = P.text();
             writeFile(cur, txt);
-            RunResult r = runProgram(P, C);
+            RunResult r = runCase(P, tier);
             done++;
             steps += long(P.steps.size());
             for (auto& kv : r.labels.c) { total.add(kv.first, kv.second); total.add("cases_with." + kv.first); }
